@@ -97,6 +97,45 @@ def ob_union(k, prefix, lens, second=None):
                   bounds={'k': k, 'prefix': prefix, 'lengths': list(lens)})
 
 
+def ob_file(k, prefix, lens, second=None):
+    """calc_file_signature(kspec, file) for a file whose parser yields records with arbitrary sequences of the given lengths
+    == the union of the per-contig k-mer sets of the property text (specs/kmers_spec.py), in either record order."""
+    from kbmc.models import NamespaceM
+    ks = session_for(k, prefix, max(lens))
+    spec = C01.make_spec(ks, k, prefix)
+    seqs, cells = zip(*[sym_bytes('stu'[i], n) for i, n in enumerate(lens)])
+    fn = ks.lookup('gambit.sigs.calc', 'calc_file_signature')
+
+    def seqfile(order):
+        recs = [NamespaceM(seq=seqs[i], id=f'contig{i}', name=f'contig{i}', description='') for i in order]
+        ctx = NamespaceM(stubs={'__enter__': lambda ip, *a: recs, '__exit__': lambda ip, *a: None})
+        return NamespaceM(stubs={'parse': lambda ip, *a, **kw: ctx}, path='genome.fasta', format='fasta', compression='auto')
+    outs = [ks.call(fn, spec, seqfile(order)) for order in (range(len(lens)), reversed(range(len(lens))))]
+    occ = []
+    for cs in cells:
+        occ.extend(S.occurrences(cs, k, prefix.encode()))
+    viols = []
+    for o in outs:
+        sig = o.ret
+        if not isinstance(sig, IndexArrayM):
+            viols.append(True)
+            continue
+        spec_member = lambda v: lor(*[land(c, idx == v) for c, idx, _, _ in occ])
+        viols += [o.raised, lnot(sig.is_sorted), not sig.unique, str(sig.dtype) != str(np.dtype(S.index_dtype_str(k))),
+                  *[land(g, lnot(spec_member(val_bv64(x)))) for g, x in sig.inserts],
+                  *[land(c, lnot(C01.member(sig, idx))) for c, idx, _, _ in occ]]
+    # witnesses: each contig alone contributes a k-mer no other contig has
+    wit = []
+    for i, cs in enumerate(cells):
+        mine = S.occurrences(cs, k, prefix.encode())
+        others = [t for j, c2 in enumerate(cells) if j != i for t in S.occurrences(c2, k, prefix.encode())]
+        if mine:
+            wit.append((f'contig-{i}-has-a-kmer-of-its-own', lor(*[land(c, lnot(lor(*[land(c2, i2 == idx) for c2, i2, _, _ in others]))) for c, idx, _, _ in mine])))
+    return decide(f'file k={k} prefix={prefix} lens={list(lens)}', [], lor(*viols), ks,
+                  _ex(cells, lambda m: {'k': k, 'prefix': prefix, 'kind': 'file'}), TO, second=second, reach_goals=wit or None,
+                  bounds={'k': k, 'prefix': prefix, 'record lengths': list(lens), 'record order': 'as given and reversed'})
+
+
 def ob_case(k, prefix, n, second=None):
     """sig(seq) == sig(seq with an arbitrary subset of its letters case-flipped)."""
     ks = session_for(k, prefix, n)
@@ -262,6 +301,24 @@ def replay(cex):
         return bool(bad), {'how': 'real gambit.util.io on temporary files', 'mismatches': bad}
     seqs = [bytes.fromhex(h) for h in cex['seqs_hex']]
     k, prefix = cex['k'], cex['prefix']
+    if kind == 'file':
+        # the real calc_file_signature on a sequence-file object whose parse() yields records with exactly these sequences
+        import types, contextlib
+        import gambit.sigs.calc as gc
+        from gambit.kmers import KmerSpec
+        bad = []
+        want = S.py_signature(k, prefix.encode(), seqs)
+        for order in (list(range(len(seqs))), list(reversed(range(len(seqs))))):
+            recs = [types.SimpleNamespace(seq=seqs[i], id=f'contig{i}', name=f'contig{i}', description='') for i in order]
+            sf = types.SimpleNamespace(parse=lambda **kw: contextlib.nullcontext(iter(recs)), path='genome.fasta', format='fasta', compression='auto')
+            try:
+                got = [int(x) for x in gc.calc_file_signature(KmerSpec(k, prefix), sf)]
+            except Exception as e:   # noqa
+                got = type(e).__name__
+            if got != want:
+                bad.append(('file signature', order, got, want))
+        return bool(bad), {'how': 'real gambit.sigs.calc.calc_file_signature on a record source with these contigs (compiled kernels)', 'mismatches': bad,
+                           'seqs': [repr(x) for x in seqs]}
     base, how = C01.real_signature(k, prefix, seqs, 'bytes', 'default')
     bad = []
     want = ('ok', S.py_signature(k, prefix.encode(), seqs), str(np.dtype(S.index_dtype_str(k))))
@@ -307,6 +364,11 @@ def main(tier):
             if (n1, n2) in ((tl, tl), (tl - 1, tl)):
                 for flips in ((True, False), (False, True), (True, True)):
                     specs.append(('props.C06', 'ob_strand', dict(k=k, prefix=p, lens=[n1, n2], flips=list(flips), second=second)))
+        # the file-level entry point: records of exactly prefix+k, one shorter, one longer, with a one-letter and an empty record
+        for lens in ([tl, tl], [tl - 1, tl + 1], [tl, 1, 0]) + (([tl + 1, tl, tl - 1], [tl + 2, tl + 2]) if tier == 'thorough' else ()):
+            if len(p) == 1 and sum(lens) > 7:
+                continue
+            specs.append(('props.C06', 'ob_file', dict(k=k, prefix=p, lens=list(lens), second=second)))
     for nb in (2, 3, 4):
         for mode in ('rt', 'rb'):
             specs.append(('props.C06', 'ob_compression_case', dict(nbytes=nb, mode=mode)))
@@ -332,7 +394,7 @@ def main(tier):
                 run.inconclusive.append(r)
     from vlib import xprop
     jobs = [dict(path='/verif/xh/h_c06.py', fname='_c06_biology', params={}, timeout=300, self_reach=True, label='file level: contig orientation / order / case',
-                 bounds={'genomes': '2 three-contig genomes (matches flush with contig ends, mixed case, N runs, a boundary-spanning k-mer, a too-short contig)',
+                 bounds={'genomes': '3 three-contig genomes (contigs of exactly prefix+k, matches flush with contig ends, mixed case, N runs, a boundary-spanning k-mer, a too-short contig)',
                          'orientation': 'every subset of contigs reverse-complemented', 'order': 'all 6 contig orders', 'case': 'original / upper / lower / alternating'}),
             dict(path='/verif/xh/h_c06.py', fname='_c06_form', params={}, timeout=300, self_reach=True, label='file level: line width / line endings / final newline / compression / file name',
                  bounds={'line width': '1, 7, 60, unwrapped', 'line endings': 'LF / CRLF', 'final newline': 'yes / no', 'compression': 'none / gzip / multi-member gzip (members split mid-record)',
